@@ -73,7 +73,11 @@ impl Ntv2Grid {
     fn find_grid(&self, coord: &Coor4D, margin: f64) -> Option<(String, &BaseGrid)> {
         // Start with the base grids whose parent id is `NONE`
         let mut current_grid_id: String = "NONE".to_string();
-        let mut queue = self.lookup_table.get(&current_grid_id).unwrap().clone();
+        // A file without any base grid (i.e. no sub grid with parent `NONE`) covers nothing
+        let Some(base_grids) = self.lookup_table.get(&current_grid_id) else {
+            return None;
+        };
+        let mut queue = base_grids.clone();
 
         while let Some(grid_id) = queue.pop() {
             // Unwrapping is safe because a panic means we didn't
@@ -113,7 +117,7 @@ impl Ntv2Grid {
         // within it's outer margin.
         if current_grid_id == "NONE" {
             // Find the first base grid which contain the point +- the margin, if at all.
-            for base_grid_id in self.lookup_table.get(&current_grid_id).unwrap() {
+            for base_grid_id in base_grids {
                 if let Some(base_grid) = self.subgrids.get(base_grid_id) {
                     if base_grid.contains(coord, margin) {
                         return Some((base_grid_id.clone(), base_grid));
